@@ -20,6 +20,13 @@ def definition(i):
     return conds, acts
 
 
+def _P_fresh(text):
+    from sievelib.parser import Parser
+    p = Parser()
+    assert p.parse(text.encode("utf-8")) is True
+    return p
+
+
 def core_of(content):
     """which definition a content was built from (fileinto target), through any number of `if false` wrappers"""
     for n in content.walk():
@@ -259,6 +266,37 @@ def run(ctx):
         if e != m:
             diffs.append({"suite": "factory-list", "request": l, "impl": e[:300], "model": m[:300]})
             if len(diffs) > 20:
+                break
+    # two sets side by side, loaded from ONE parsed script (some of its filters disabled in the source): each is an ordered list
+    # of its own — editing one leaves the other as it was, and the other can still be edited
+    from sievelib.parser import Parser as _P
+    src = FiltersSet("src")
+    for k_, nm_ in enumerate(("a", "b", "c")):
+        src.addfilter(nm_, *definition(k_))
+    src.disablefilter("a")
+    src.disablefilter("c")
+    pp = _P()
+    assert pp.parse(str(src).encode("utf-8")) is True
+    for ops_on_first in (("enable", "a"), ("disable", "b")), (("enable", "c"), ("remove", "a")), (("remove", "b"), ("enable", "a"), ("disable", "a")), (("move", "c", "up"), ("enable", "c")):
+        one, two = FiltersSet("one"), FiltersSet("two")
+        one.from_parser_result(pp)
+        two.from_parser_result(pp)
+        before = (observe(two), str(two))
+        for op in ops_on_first:
+            _apply_real(one, op)
+        after = (observe(two), str(two))
+        evals += 1
+        if after != before:
+            viol.append({"what": "two sets loaded from one parsed script — editing the first (%r) changed the second: %s → %s" % (ops_on_first, before[0], after[0])})
+            continue
+        # … and the second set still behaves like the list it is
+        ref = FiltersSet("ref")
+        ref.from_parser_result(_P_fresh(str(src)))
+        for op in (("enable", "a"), ("get", "c"), ("isdis", "c"), ("enable", "c"), ("disable", "b")):
+            got, want = _apply_real(two, op), _apply_real(ref, op)
+            if got != want:
+                viol.append({"what": "two sets loaded from one parsed script — after the first was edited (%r), %r on the second gives %s, on a set loaded alone %s" % (
+                    ops_on_first, op, got[:80], want[:80])})
                 break
     seen, uv = set(), []
     for v in viol:
